@@ -33,7 +33,45 @@ def make_docs(rng, n):
             d.source = d.source.rstrip()[:-1] + "    QAction { separator: true; onHovered: {} }\n}\n"
             d.variant += "+separator-callback"
         docs.append(d)
-    return docs
+    return docs + constant_only_docs()
+
+
+class RawDoc:
+    def __init__(self, source, variant):
+        self.source, self.type_name, self.fault, self.variant = source, "MyType", None, variant
+
+
+# dynamic expressions bound where only constants can be honoured (pseudo objects and pseudo properties): whatever a mode
+# does with them, the three modes must stay in the relation the property states
+CONSTANT_ONLY_TARGETS = [
+    "QSpacerItem { orientation: wide.checked ? Qt.Horizontal : Qt.Vertical }",
+    "QSpacerItem { sizeHint.width: wide.checked ? 10 : 20 }",
+    "QSpacerItem { sizeHint { width: spin.value; height: 3 } }",
+    "QSpacerItem { sizeType: wide.checked ? QSizePolicy.Fixed : QSizePolicy.Expanding }",
+    "QSpacerItem { id: sp; orientation: Qt.Horizontal; onDestroyed: {} }",
+    "QPushButton { QAction { separator: wide.checked } }",
+    "QPushButton { QAction { id: act } actions: wide.checked ? [act] : [] }",
+    "QComboBox { model: [edit.text, \"b\"] }",
+    "QComboBox { model: wide.checked ? [\"a\"] : [\"b\"] }",
+    "QVBoxLayout { spacing: spin.value }",
+    "QVBoxLayout { contentsMargins.left: spin.value }",
+    "QGridLayout { columns: spin.value; QLabel {} }",
+    "QLabel { QLayout.rowStretch: spin.value }",
+    "QLabel { buddy: wide.checked ? edit : spin }",
+    "QTabWidget { QWidget { QTabWidget.title: edit.text } }",
+    "QPushButton { default_: wide.checked }",
+    "QTreeView { header.visible: wide.checked }",
+    "QTableView { horizontalHeader.defaultSectionSize: spin.value }",
+]
+
+
+def constant_only_docs():
+    out = []
+    for t in CONSTANT_ONLY_TARGETS:
+        src = ("import qmluic.QtWidgets\nQWidget {\n    QVBoxLayout {\n        QCheckBox { id: wide }\n        QSpinBox { id: spin }\n"
+               "        QLineEdit { id: edit }\n        %s\n    }\n}\n" % t)
+        out.append(RawDoc(src, "dynamic-on-constant-only-target"))
+    return out
 
 
 def errset(r):
@@ -123,7 +161,7 @@ def run(tier, seed, replay=None):
         variants[d.variant + ("/fault" if d.fault else "")] = variants.get(d.variant + ("/fault" if d.fault else ""), 0) + 1
         key = (d.variant, d.fault, g_acc, r_acc, len(errset(g)), len(errset(rj)), len(errset(om)))
         if g.get("built"):
-            distinct.add((doccheck.doc_shape(d),) + key)
+            distinct.add(((doccheck.doc_shape(d) if hasattr(d, "root") else common.shash(d.source)),) + key)
         if len(samples) < 4 and (d.fault or "+" in d.variant) and len(d.source) < 1200 and key[:2] not in [s["key"][:2] for s in samples]:
             samples.append({"key": list(key), "qml": d.source, "accepted": {"generate": g_acc, "reject": r_acc},
                             "errors": {"generate": sorted(errset(g))[:3], "reject": sorted(errset(rj))[:3], "omit": sorted(errset(om))[:3]}})
